@@ -12,6 +12,7 @@ import (
 	"sort"
 	"strconv"
 	"strings"
+	"sync/atomic"
 	"time"
 
 	"verif/scen"
@@ -53,6 +54,7 @@ func main() {
 	choices := flag.String("choices", "", "comma separated choice list (replay)")
 	nocache := flag.Bool("nocache", false, "disable happens-before state caching")
 	envonly := flag.Bool("envonly", false, "branch on environment choices only (default schedule)")
+	softmem := flag.Float64("softmem", 0, "GiB of memory after which the exploration stops gracefully (0 = never)")
 	flag.Parse()
 	runtime.GOMAXPROCS(1)
 	debug.SetGCPercent(400)
@@ -63,6 +65,11 @@ func main() {
 		for {
 			time.Sleep(250 * time.Millisecond)
 			runtime.ReadMemStats(&ms)
+			if *softmem > 0 && ms.Sys > uint64(*softmem*float64(1<<30)) {
+				// the explorer's state cache has grown to this worker's share of the machine: stop exploring and
+				// report what was covered (incomplete) instead of risking the whole run
+				atomic.StoreInt32(&vsched.StopRequested, 1)
+			}
 			if ms.Sys > 12<<30 {
 				fmt.Fprintf(os.Stdout, "{\"kind\":\"%s\",\"name\":\"%s\",\"params\":\"%s\",\"error\":\"worker exceeded 12 GiB of memory and was stopped by its watchdog\"}\n", *mode, *name, *params)
 				os.Exit(3)
